@@ -91,6 +91,15 @@ func (t *WeightedMerkleTrie) Update(key, value []byte, weight uint64) error {
 
 func (t *WeightedMerkleTrie) insert(node Node, prefix, key []byte, value Node) (int64, Node, error) {
 	if len(key) == 0 {
+		if hn, ok := node.(*hashNode); ok {
+			// the value was collapsed to a hash reference by a commit, load it so that
+			// the update replaces it instead of adding its weight a second time
+			rn, err := t.resolveHashNode(hn)
+			if err != nil {
+				return 0, nil, err
+			}
+			node = rn
+		}
 		if v, ok := node.(*valueNode); ok {
 			newVal := value.(*valueNode).value
 			if bytes.Equal(v.value, newVal) {
